@@ -423,6 +423,13 @@ def run(tier, seed, replay):
         chk.sample({"literal": l, "derive_more": r_ph, "std": s if s is None else [x[0] for x in s]}, limit=10)
     chk.cov["traces_validated_against_impl"] = n_tie
 
+    extra_chk = {}
+    if tier == "thorough" and not getattr(chk, "proof_broken", False):
+        ok, ax, tail = common.coqchk_all()
+        extra_chk = {"coqchk": {"command": "coqchk -o -silent -Q theories Verif <every Props module>", "axioms": ax, "ok": ok}}
+        if not ok:
+            chk.violation("coqchk", {"axioms": ax, "output": tail}, "coqchk does not accept the development / reports axioms: %s" % ax,
+                          no_input=True)
     if getattr(chk, "proof_broken", False) and not chk.violations:
         chk.violation("proof-broken", chk.proof_failure, "a C03 proof obligation no longer checks: %s" %
                       chk.proof_failure["failed"], no_input=True)
@@ -436,7 +443,7 @@ def run(tier, seed, replay):
              "sequences + all strings of length <=3 (quick) / <=4 (thorough) over a 30-symbol alphabet with 2-,3-,4-byte chars; "
              "non-trivial = std accepts with >=1 placeholder, or the two parsers disagree on acceptance; distinct by literal",
         trusted=TRUSTED,
-        extra={"unicode_tables": {"xid_start": tabs["start"], "xid_continue": tabs["cont"], "white_space": tabs["ws"],
+        extra={**extra_chk, "unicode_tables": {"xid_start": tabs["start"], "xid_continue": tabs["cont"], "white_space": tabs["ws"],
                                   "axid_differences": len(axid)}})
 
 
